@@ -320,6 +320,16 @@ def run(rc):
     # corpus 3: memo-sensitive and left-recursive hand-written grammars
     memo_inputs = list(gs.inputs(['a', 'b', ' '], 4 if quick else 5))
     lr_inputs = [' '.join(t) for n in range(0, 5 if quick else 7) for t in itertools.product(['1', '+', '*', '-', '(', ')'][:4 if quick else 6], repeat=n)]
+    # parenthesised inputs reach the cut inside `'(' ~ e ')'` while a seed is still growing
+    def balanced(t):
+        d = 0
+        for x in t:
+            d += (x == '(') - (x == ')')
+            if d < 0:
+                return False
+        return d == 0 and '(' in t
+    lr_inputs += [' '.join(t) for n in ((5,) if quick else (7,)) for t in itertools.product(['1', '+', '*', '-', '(', ')'], repeat=n) if balanced(t)]
+    lr_inputs = sorted(set(lr_inputs), key=lambda x: (len(x), x))
     items = [(n, g, memo_inputs, False) for n, g in MEMO_GRAMMARS] + [(n, g, lr_inputs, True) for n, g in LR_GRAMMARS]
     rc.pmap(shard_text, items, chunk=1)
     rc.coverage['phase_s']['handwritten'] = round(_t.time() - t0, 1)
